@@ -1185,9 +1185,9 @@ void	ADF_Delete(
 		const double ID,
 		int *error_return )
 {
-int                     num_ids , i, link_path_length ;
+int                     num_ids , i, link_path_length, found ;
 double                  *ids ;
-unsigned int            file_index ;
+unsigned int            file_index, parent_file_index ;
 struct DISK_POINTER     parent ;
 struct DISK_POINTER     child ;
 struct NODE_HEADER      node_header ;
@@ -1205,6 +1205,31 @@ CHECK_ADF_ABORT( *error_return ) ;
 
 ADFI_read_node_header( file_index, &child, &node_header, error_return ) ;
 CHECK_ADF_ABORT( *error_return ) ;
+
+    /** The node has to be a child of PID: find that out before anything
+        is deleted (the parent's table is searched only at the end) **/
+ADFI_ID_2_file_block_offset( PID, &parent_file_index,
+                             &parent.block, &parent.offset, error_return ) ;
+CHECK_ADF_ABORT( *error_return ) ;
+ADFI_get_direct_children_ids( parent_file_index, &parent, &num_ids, &ids,
+                              error_return ) ;
+if( *error_return != NO_ERROR ) {
+   if( ids != NULL ) free( ids ) ;
+   CHECK_ADF_ABORT( *error_return ) ;
+   } /* end if */
+for( i=0, found=0; i<num_ids; i++ ) {
+   if( ids[i] == ID ) {
+      found = 1 ;
+      break ;
+      } /* end if */
+   } /* end for */
+if( num_ids > 0 ) {
+   free( ids ) ;
+   } /* end if */
+if( (parent_file_index != file_index) || ! found ) {
+   *error_return = CHILD_NOT_OF_GIVEN_PARENT ;
+   CHECK_ADF_ABORT( *error_return ) ;
+   } /* end if */
 
     /** Delete node data **/
 
